@@ -2,6 +2,7 @@ package c15
 
 import (
 	"fmt"
+	yaml "gopkg.in/yaml.v3"
 	"math"
 	"math/big"
 	"sort"
@@ -35,7 +36,7 @@ type Scalar struct {
 }
 
 func num(y, exact string, isFloat bool) Scalar { return Scalar{Y: y, Cls: 2, N: exact, F: isFloat} }
-func str(s string) Scalar                       { return Scalar{Y: model.QuoteJSON(s), Cls: 3, S: s} }
+func str(s string) Scalar                      { return Scalar{Y: model.QuoteJSON(s), Cls: 3, S: s} }
 
 var pool = []Scalar{
 	{Y: "null", Cls: 0}, {Y: "~", Cls: 0},
@@ -550,6 +551,64 @@ func checkKeys(c KeysCase) hx.Verdict {
 	return hx.OK(doc.Size() > 4, c.Doc, "sort_keys")
 }
 
+// sort_keys over YAML maps whose keys read the same but differ in type (1 and "1"): every entry must survive
+type YKeysCase struct {
+	Keys []string `json:"keys"` // YAML spellings of the keys, values are their positions
+}
+
+var yamlKeyPool = []string{"1", "\"1\"", "true", "\"true\"", "~", "\"~\"", "1.0", "\"1.0\"", "null", "\"null\"", "b", "a", "0x1", "\"0x1\"", "z", "10", "\"10\"", "B"}
+
+func checkYKeys(c YKeysCase) hx.Verdict {
+	if len(c.Keys) == 0 {
+		return hx.Disc("empty")
+	}
+	var b strings.Builder
+	for i, k := range c.Keys {
+		fmt.Fprintf(&b, "%s: %d\n", k, 1000+i)
+	}
+	o := hx.Run("sort_keys(.)", b.String(), hx.Opts{})
+	if v := bad(o, b.String()); v != nil {
+		return *v
+	}
+	entries := func(text string) ([]string, []string, bool) {
+		nodes, err := hx.YAMLNodes(text)
+		if err != nil || len(nodes) != 1 {
+			return nil, nil, false
+		}
+		n := nodes[0]
+		if n.Kind == yaml.DocumentNode && len(n.Content) == 1 {
+			n = n.Content[0]
+		}
+		if n.Kind != yaml.MappingNode {
+			return nil, nil, false
+		}
+		var es, ks []string
+		for i := 0; i+1 < len(n.Content); i += 2 {
+			es = append(es, n.Content[i].ShortTag()+" "+n.Content[i].Value+" = "+n.Content[i+1].Value)
+			ks = append(ks, n.Content[i].Value)
+		}
+		return es, ks, true
+	}
+	in, _, ok1 := entries(b.String())
+	out, outKeys, ok2 := entries(o.Out)
+	if !ok1 {
+		return hx.Disc("generator_unsound")
+	}
+	if !ok2 {
+		return hx.Bad("", "sort_keys output is not a map: %q from %q", o.Out, b.String())
+	}
+	si, so := append([]string{}, in...), append([]string{}, out...)
+	sort.Strings(si)
+	sort.Strings(so)
+	if strings.Join(si, "\n") != strings.Join(so, "\n") {
+		return hx.Bad("", "sort_keys changed more than the key order: entries %q became %q (input %q, output %q)", in, out, b.String(), o.Out)
+	}
+	if !sort.StringsAreSorted(outKeys) {
+		return hx.Bad("", "sort_keys left the keys unsorted: %q", outKeys)
+	}
+	return hx.OK(len(c.Keys) >= 3, b.String(), "sort_keys_yaml")
+}
+
 var _ = math.Inf
 
 func TestProp(t *testing.T) {
@@ -570,5 +629,8 @@ func TestProp(t *testing.T) {
 			return CmpCase{A: a, B: rapid.SampledFrom(same).Draw(t, "b"), Rest: rapid.SliceOfN(rapid.SampledFrom(same), 0, 4).Draw(t, "rest")}
 		}, checkCmp),
 		hx.NewSub("sort_keys", 3000, 20000, func(t *rapid.T) KeysCase { return KeysCase{Doc: genKeysDoc(t, 3).JSON()} }, checkKeys),
+		hx.NewSub("sort_keys_yaml", 1500, 10000, func(t *rapid.T) YKeysCase {
+			return YKeysCase{Keys: rapid.SliceOfNDistinct(rapid.SampledFrom(yamlKeyPool), 1, 8, func(s string) string { return s }).Draw(t, "keys")}
+		}, checkYKeys),
 	)
 }
